@@ -149,11 +149,22 @@ def run_unit(unit, repo='/repo', rlimit=20, extra_opts=(), timeout=600):
     res['times_ms'] = {k: out['times-ms'].get(k) for k in ('total',)}
     res['smt_ms'] = out.get('times-ms', {}).get('smt', {}).get('total')
     # per function table
+    nobody = []   # woven line ranges of signature-only / trusted (external_body) emissions: no obligation of their own
+    for f in w.functions:
+        if f['kind'] != 'fn':
+            nobody.append(tuple(f['woven_lines']))
     for ent in fnmap:
         i = fid(ent)
         if ent[3] == 'spec':
             continue
+        if any(lo <= ent[0] <= hi for lo, hi in nobody):
+            res.setdefault('contract_only', []).append(i)
+            continue
         res['functions'][i] = {'mode': ent[3], 'line': ent[0], 'status': 'verified', 'failed': []}
+    for a in res['assumptions']:
+        if a['kind'] == 'external_body' and a['at'] in res['functions']:
+            del res['functions'][a['at']]
+            res.setdefault('contract_only', []).append(a['at'])
     hard = []
     for d in diags:
         if d.get('level') != 'error' or not d.get('spans'):
